@@ -125,6 +125,17 @@ CHECKS.update({
     ),
 })
 
+CHECKS.update({
+    "C06": dict(
+        engine="E3 CrossHair (key collisions) + cold/warm replay",
+        cat="other",
+        text="PARTIAL. Reduction: a warm call differs from a cold one only if two calls with equal cache keys have different cold outcomes, or a failing call leaves state behind. CrossHair searches einx's real key path (_freeze_args/_freeze_value + functools._make_key) for argument pairs of different type that share a key; every pair found (and the CPython-equal representatives 2/2.0, 1/True, 1.0/True) is replayed through the public API in every argument slot, both orders, with and without graph=True: second call in a fresh interpreter vs. after the first call. Failing calls at parse/solve/trace/run time are followed by a valid call and compared the same way, including context-stack depths.",
+        note="CrossHair cannot confirm absence of collisions (hash/== realise symbolic values): no counterexample = inconclusive. Arbitrary long histories are covered only through the reduction; compilation determinism is C16's subject.",
+        tech="CrossHair counterexample search over the real cache-key functions + differential cold/warm replay",
+        ref="DESIGN.md §3 C06",
+    ),
+})
+
 NOT_APPLICABLE = {
     "C17": "quantifies over all axis lengths and the syntactic form of generated text; stages 2-4 cannot run with symbolic sizes under any installed engine (sympy, numpy int32 casts), see DESIGN.md §3 C17",
 }
